@@ -43,7 +43,7 @@ type childJob struct {
 	Workers [][]int `json:"workers"`
 	Fsize   int64   `json:"fsize"` // RLIMIT_FSIZE, <0 = unlimited
 	Warm    int     `json:"warm"`  // multi-writer: openat+close pairs every writer thread does before the start marker
-	Bad     string  `json:"bad,omitempty"` // self-test of the oracle: direct = write the final name in two steps; stray = also leave a file Prune does not know
+	Bad     string  `json:"bad,omitempty"` // self-test of the oracle: ref = the harness' own atomic routine; direct = write the final name in two steps; stray = leave a file Prune does not know
 }
 
 type childOp struct {
@@ -168,7 +168,22 @@ func badStore(job childJob, c *desync.Chunk) error {
 		os.WriteFile(dir+"/stray-"+id[:8], []byte("x"), 0o644)
 		return nil
 	}
-	f, err := os.OpenFile(job.Dir+"/"+chunkRel(id, job.Compressed), os.O_WRONLY|os.O_CREATE|os.O_TRUNC, 0o644)
+	final := job.Dir + "/" + chunkRel(id, job.Compressed)
+	if job.Bad == "ref" { // the harness' own atomic routine: lets TestSelf check the machinery without relying on desync
+		tmp := dir + "/.tmp-cacnk.ref" + id[:8]
+		f, err := os.OpenFile(tmp, os.O_WRONLY|os.O_CREATE|os.O_EXCL, 0o644)
+		if err != nil {
+			return err
+		}
+		if _, err := f.Write(b); err != nil {
+			f.Close()
+			os.Remove(tmp)
+			return err
+		}
+		f.Close()
+		return os.Rename(tmp, final)
+	}
+	f, err := os.OpenFile(final, os.O_WRONLY|os.O_CREATE|os.O_TRUNC, 0o644)
 	if err != nil {
 		return err
 	}
